@@ -39,6 +39,9 @@ def run(chk):
     res = vlib.tlc('MC_Kernels', workers=8, xss='64m', timeout=1800, tag='MC_Kernels')
     vlib.expect_mc_ok(chk, res, 'MC_Kernels')
     runs, skipped = kernel_traces(chk, exe, 'c11')
+    # long operands (1000..16391 octets, beyond any internal block size) on a second, larger arena
+    runs_long, _ = kernel_traces(chk, exe, 'c11long', extra_args=['--long'])
+    runs += [('long:' + n, t, rc, o) for n, t, rc, o in runs_long]
     if not chk.quick:
         exe2 = vlib.build_harness('checked')
         runs2, _ = kernel_traces(chk, exe2, 'c11chk', profile='checked')
